@@ -221,7 +221,7 @@ def run(ctx):
             syndromes = [np.array(s, dtype=int) for s in itertools.product((0, 1), repeat=m)]
             n_dist_per = 1 if m > 5 else 2
         else:
-            k_s = ctx.pick(10, 60) if n <= 16 else ctx.pick(5, 30)
+            k_s = ctx.pick(60, 400) if n <= 13 else (ctx.pick(40, 250) if n <= 18 else ctx.pick(16, 100))
             syndromes = [np.zeros(m, dtype=int)] + [np.array([rng.random() < rng.choice([0.1, 0.3, 0.5]) for _ in range(m)], dtype=int)
                                                    for _ in range(k_s)]
             n_dist_per = 1
@@ -249,7 +249,7 @@ def run(ctx):
                            'exact_coset_probabilities': [str(float(e)) for e in exact]} if (si, di) == (3, 0) and n <= 13 else None)
                 rep0 = {'code': repr(code), 'syndrome': bitstr(syn), 'dist': [float(p).hex() for p in dist],
                         'sample': bitstr(f), 'exact': [str(float(e)) for e in exact]}
-                if small:
+                if small and (n <= 5 or si % max(1, len(syndromes) // ctx.pick(12, 48)) == 0):
                     for ci, c in enumerate(cands):
                         add('exact oracle vs Coset.coset_prob', 'coset %d %s %s %s' % (n, gens_str, bitstr(c), ' '.join(hex(v) for v in a)),
                             hex(exact_int[ci]), rep0)
@@ -404,7 +404,7 @@ def run(ctx):
         if len(classes) != 2:
             ctx.violation('y-logical', 'the Y-only normalizer does not split into exactly two cosets', {'code': repr(code), 'classes': classes})
         wts = K.sum(axis=1)
-        for _ in range(ctx.pick(6, 40)):
+        for _ in range(ctx.pick(40, 300)):
             p = rng.choice([0.02, 0.1, 0.2, 0.3, 0.45])
             yerr = np.array([rng.random() < p for _ in range(n)], dtype=np.uint8)
             err = np.concatenate([yerr, yerr]).astype(int)
